@@ -3,6 +3,7 @@ mod automata;
 mod charsets;
 mod dump;
 mod loopranges;
+mod manager;
 mod partitions;
 mod regex;
 mod strings;
@@ -65,6 +66,8 @@ fn main() {
         ("drive", "builder") => automata::drive_builder(&a),
         ("replay", "dfa") => automata::replay_dfa(&a),
         ("drive", "automata") => automata::drive_automata(&a),
+        ("replay", "manager") => manager::replay(&a),
+        ("drive", "manager") => manager::drive(&a),
         ("drive", "c01") => regex::drive_c01(&a),
         ("drive", "c02") => regex::drive_c02(&a),
         ("drive", "c03") => regex::drive_c03(&a),
